@@ -107,6 +107,8 @@ void vrt_fail(const char *key, const char *fmt, ...)
 /* record without abandoning (used by multi-threaded harnesses at the end) */
 void vrt_report(const char *key, const char *fmt, ...)
     __attribute__((format(printf, 2, 3)));
+/* give up on the current run without a verdict (supervisor exits 2) */
+void vrt_inconclusive(const char *fmt, ...) __attribute__((format(printf, 1, 2), noreturn));
 #define VRT_CHECK(cond, key, ...) do { if (!(cond)) vrt_fail(key, __VA_ARGS__); } while (0)
 
 /* ---------- expected aborts ---------- */
